@@ -105,7 +105,9 @@ INFO = {
                 "members invalid for different reasons, length extensions by 1/255/256/257/512/65536 bytes, long members "
                 "differing at a power-of-two byte offset) for all four profiles: every ordered pair is compared with (1) "
                 "equality of reference comparison forms, first operand's error first, (2) for usernames/OpaqueString "
-                "enforce(a)==enforce(b) with the library's enforce, (3) the static compare; a second pair-major pass with the other profiles interleaved must reproduce every result; the recorded "
+                "enforce(a)==enforce(b) with the library's enforce, (3) the static compare; a second pair-major pass with the other profiles interleaved must reproduce every result; "
+                "members of equal byte length are written one after the other into one reused buffer (as first and as second operand, instance and static form) and must give the results of their content; "
+                "every scalar value is swept in four cased contexts (A+c / a+lower(c), c+A / upper(c)+a, 'Team 3c4' / 'team 3c4', c / lower(c) / upper(c)) through the same checks; the recorded "
                 "matrix is checked for reflexivity on accepted strings, symmetry (errors may differ only in which), transitivity over all triples. "
                 "Non-trivial = distinct pairs of different strings with Ok(true), or with exactly one side rejected.",
         "floor_quick": 20000,
